@@ -107,7 +107,13 @@ func genAtomicWrite(r *Rng, tier string, idx int, args map[string]string) []stri
 		case x < 8 && old == "none": // CreateTemp fails (directory missing)
 			fi = 0
 		}
-		ops = append(ops, fmt.Sprintf("plan %s %s %d %d", old, Hx(string(nb)), fi, k))
+		op := fmt.Sprintf("plan %s %s %d %d", old, Hx(string(nb)), fi, k)
+		if old != "none" && fi != 0 && r.Chance(1, 4) {
+			// the notebook path is a symbolic link to the real file (dotfiles managers do that): reading through the path must
+			// still give the old or the new content after a cut write
+			op += " symlink"
+		}
+		ops = append(ops, op)
 	}
 	return ops
 }
@@ -171,7 +177,15 @@ func execAtomicWrite(ops []string, mon *Mon) []string {
 				path = filepath.Join(dir, "missing", "personal.yml")
 			}
 			if old != "none" {
-				os.WriteFile(path, []byte(UnHx(old)), 0o644)
+				if len(f) > 5 && f[5] == "symlink" {
+					os.MkdirAll(dir+"-dotfiles", 0o755) // not beside the notebook: everything else in its directory counts as a stray temp file
+					real := filepath.Join(dir+"-dotfiles", "personal.yml")
+					os.WriteFile(real, []byte(UnHx(old)), 0o644)
+					os.Symlink(real, path)
+					mon.Tag("notebook-is-symlink")
+				} else {
+					os.WriteFile(path, []byte(UnHx(old)), 0o644)
+				}
 			}
 			lim := int64(-1)
 			if fi == 1 {
